@@ -322,7 +322,20 @@ func logsloglevel2Level(level logslog.Level) Level {
 	case LevelPanic:
 		return PanicLevel
 	}
-	return FatalLevel
+	// any other value falls into the band of the standard level below it,
+	// as log/slog prints them (INFO+1, WARN+2, ...). Only the explicit
+	// LevelFatal/LevelPanic constants may map to a terminating severity.
+	switch {
+	case level < logslog.LevelDebug:
+		return TraceLevel
+	case level < logslog.LevelInfo:
+		return DebugLevel
+	case level < logslog.LevelWarn:
+		return InfoLevel
+	case level < logslog.LevelError:
+		return WarnLevel
+	}
+	return ErrorLevel
 }
 
 // mLevelIsEnabledAs is a replacement table of two levels.
